@@ -233,7 +233,7 @@ def check(ctx):
     ctx.check(sorted(names) == sorted(members), R, llr, "comparisons %s" % names, "request kinds = AssertionType members %s" % sorted(members),
               "LowLevelRequest.comparisons %s differ from the AssertionType members %s" % (names, members))
     f = ctx.fn("backend:LowLevelRequest.to_generation_request")
-    fact(ctx, R, f, "to_generation_request", Facts(f).returns(), ["GenerationRequest(AssertionType[self.comparison], self.k, [Var(v) for v in self.variables])"],
+    fact(ctx, R, f, "to_generation_request", Facts(f).returns(), ["GenerationRequest(AssertionType[self.comparison], self.k, [Var(_b0) for _b0 in self.variables])"],
          "kind by name, k and variables passed through unchanged")
     sat = ctx.fn("utility:combine_cnf_with_requests")
     chains = enum_dispatch(sat.node, "AssertionType")
@@ -269,14 +269,14 @@ def check(ctx):
     rc = [c for c, st in Fi.calls_named("ripple_carry")]
     ctx.check(len(rc) == 1 and [ast.unparse(a) for a in rc[0].args] == ["kbs", "neg_twos_comp_nbs"], R, ineq, "addition",
               "difference = minuend + (-subtrahend)", "the difference is computed as %s" % ([ast.unparse(a) for a in rc[0].args] if rc else "?"))
-    fact(ctx, R, ineq, "k bits", Fi.assigns("assertion"), ["[Var(b*kv.value) for (kv, b) in zip(self.get_n_fresh(len(int_to_binary(k))), int_to_binary(k))]"],
+    fact(ctx, R, ineq, "k bits", Fi.assigns("assertion"), ["[Var(_b0.value*_b1) for (_b0, _b1) in zip(self.get_n_fresh(len(int_to_binary(k))), int_to_binary(k))]"],
          "the bits of k are unit-fixed: variable i gets the sign of bit i of k")
     fact(ctx, R, ineq, "pop count width", Fi.assigns("sum_bits"), ["self.pop_count(in_list, 1 + len(int_to_binary(k)))"], "pop count saturates one bit above k's width")
     eq = ctx.fn("cnf:CNF.assert_k_of_n")
     Fe = Facts(eq)
     fact(ctx, R, eq, "EQ pop count width", Fe.assigns("sum_bits"), ["self.pop_count(in_list, 1 + len(int_to_binary(k)))"], "pop count saturates one bit above k's width")
     a_ = Fe.assigns("assertion")
-    ctx.check(len(a_) == 1 and a_[0].startswith("[Var(lp*sb.value) for (lp, sb) in zip("), R, eq, "EQ comparison",
+    ctx.check(len(a_) == 1 and a_[0].startswith("[Var(_b0*_b1.value) for (_b0, _b1) in zip("), R, eq, "EQ comparison",
               "each sum bit is unit-fixed to the corresponding (zero-padded) bit of k", "the EQ comparison changed: %s" % (a_[0][:100] if a_ else a_))
     ib = ctx.fn("binary:int_to_binary")
     Fb = Facts(ib)
@@ -297,7 +297,7 @@ def check(ctx):
     ctx.check(rt == "M", "C10.bit-order", neg, "two's complement result %s" % _n(rt), "the negated number is returned MSB-first",
               "_convert_to_negative_twos_complement returns an %s list; its caller adds it to an MSB-first operand" % _n(rt))
     Fn = Facts(neg)
-    ctx.check(Fn.iters() == ["zip(self.get_n_fresh(len(bits)), [~(b) for b in bits])"] and Fn.assigns("double_implied") == ["CNF.xnor_vars(lhs, rhs)"],
+    ctx.check(Fn.iters() == ["zip(self.get_n_fresh(len(bits)), [~(_b0) for _b0 in bits])"] and Fn.assigns("double_implied") == ["CNF.xnor_vars(lhs, rhs)"],
               "C10.bit-order", neg, "flip", "flipped[i] <-> ~bits[i] position by position", "the bit flip of the two's complement changed")
 
     # ---- definedness of the fresh variables of these functions (shared with C03)
